@@ -159,8 +159,12 @@ func genC09(seed uint64, run int, tier string) *Plan {
 	case 2:
 		p.Faults = append(p.Faults, Fault{Kind: "store-latency", At: r.IntN(6), Ms: int64(1 + r.IntN(1500))})
 	case 3:
-		// a wall-clock step: event times then run ahead of (or behind) the clock the positioning code may look at
-		p.Faults = append(p.Faults, Fault{Kind: pick(r, "clock-back", "clock-back", "clock-jump"), At: 5 + r.IntN(150), Ms: pick(r, int64(5000), 600000, 3600000)})
+		// the wall clock steps back: event times then run ahead of the clock the positioning code may look at.
+		// (No steps forward here: a transaction that is open across a large step forward has its own, now "old"
+		// events trimmed by the very commit that appends them; they never reach a committed catalog, so the
+		// oracle's event log cannot know about them and would take the resulting lost-position errors - which
+		// are legitimate - for spurious ones.)
+		p.Faults = append(p.Faults, Fault{Kind: "clock-back", At: 5 + r.IntN(150), Ms: pick(r, int64(5000), 600000, 3600000)})
 	}
 	return p
 }
@@ -589,7 +593,7 @@ func c09Call(e *Env, a *actor, c *CallRec, log *[]*gEvent, evCount []int) {
 			// preceding its earliest admissible start position (it may have scanned past events outside its
 			// scope), and retention only removes a prefix: if that event is still in the log - or nothing was ever
 			// removed - no event the stream had not seen can have been discarded
-			if lo, _, ok := startRange(st, *log, evCount); ok {
+			if lo, _, ok := startRange(st, *log, evCount); ok && e.out.Faults["clock-jump"] == 0 {
 				oldest := len(*log)
 				if cur := oplogOf(e.engine.Catalog()); len(cur) > 0 {
 					if i := indexOfID(*log, string(model.Bytes(cur[0]))); i >= 0 {
